@@ -199,9 +199,14 @@ def cmd_check(pid, tier, seed):
     for mpath, m in mans:
         tmp_out = tempfile.mktemp(prefix="gosmt-out-", suffix=".json")
         cmd = [gosmt, "run", "-manifest", mpath, "-tier", tier, "-repo", REPO, "-out", tmp_out]
+        # a harness whose verdict is settled by a violation that is not a listed known finding stops
+        # exploring after a grace period (the check fails anyway; this keeps a failing run short)
+        run_env = dict(GOENV, GOSMT_STOP_GRACE=os.environ.get("VERIF_STOP_GRACE", "60"),
+                       GOSMT_KNOWN_LABELS=json.dumps([("^" + re.escape(k["label"]) + "$") if k.get("label") else k.get("label_re", "")
+                                                      for k in known if k.get("property") == pid and k.get("status") == "known" and (k.get("label") or k.get("label_re"))]))
         if os.environ.get("VERIF_WORKERS"):
             cmd += ["-workers", os.environ["VERIF_WORKERS"]]
-        r = subprocess.run(cmd, cwd=ROOT, env=GOENV, capture_output=True, text=True)
+        r = subprocess.run(cmd, cwd=ROOT, env=run_env, capture_output=True, text=True)
         sys.stderr.write(r.stderr)
         try:
             res = json.load(open(tmp_out))
